@@ -68,6 +68,8 @@ def run_c15(ctx):
     if has_c:
         allowed["c"] = list(c_vals)
         default_combos["c"] = list(c_vals)
+    # the order in which the choices are listed is the caller's (not alphabetical)
+    default_combos = {k_: default_combos[k_] for k_ in t.perm(list(default_combos), "combos-order")}
     outs = list(outputs_of(kind, calllog.value(kind, {"a": 1})).keys())
     var_names = outs if len(outs) > 1 else outs[0]
     ctx.t("scenario", {"kind": kind, "engine": engine, "choices": allowed,
